@@ -322,3 +322,61 @@ def rf22(run, entries=('MIR_scan_string',)):
                 n += 1
                 run.ob(rule, (fn, s['l']), True, {'function': fn, 'fetch': F.src(s, casts=True), 'verdict': 'converted before widening'})
     return n
+
+
+def rf15(run):
+    """label tables of both readers are module-scoped: lref items (outside any function) and function bodies must resolve a
+    label name/number to one label object"""
+    import rf_proto
+    rule = 'RF15'
+    run.rule(rule, 'both MIR readers keep their label table for a whole module: the table (label_desc_tab in the scanner, func_labels in '
+                   'the binary reader) is reset only where a module starts, never per function, and labels of lref items are taken '
+                   'from that table')
+    tu = run.tu('mir')
+    sites = (('MIR_scan_string', lambda x: x['k'] == 'CallExpr' and (x.get('callee') or '').startswith('HTAB_') and x['callee'].endswith('clear')
+              and 'label_desc_tab' in F.src(F.call_args(x)[0])),
+             ('MIR_read_with_func', lambda x: x['k'] == 'CallExpr' and (x.get('callee') or '').startswith('VARR_') and x['callee'].endswith('trunc')
+              and 'func_labels' in F.src(F.call_args(x)[0])))
+    for fn, pred in sites:
+        f = tu.func(fn)
+        cfg = f.cfg
+        run.functions_analysed.add(('mir', fn))
+        resets = [x for x in f.walk() if pred(x)]
+        if not resets:
+            run.ob(rule, (fn, 'reset'), False)
+            run.violation(rule, f, 'label table reset', '%s never resets its label table: labels of one module leak into the next' % fn, line=f.line)
+            continue
+        for r in resets:
+            b = cfg.block_of(r)
+            conds = rf_proto.dominating_conditions(cfg, b) if b is not None else []
+            mod = any(('module' in c and 'end' not in c) and t for c, t in conds)
+            per_func = any(('func' in c and 'module' not in c) and t for c, t in conds) and not mod
+            ok = mod and not per_func
+            run.ob(rule, (fn, r['l']), ok, {'function': fn, 'reset at line': r['l'], 'under': ['%s=%s' % (c[:50], t) for c, t in conds if t][:4]})
+            if not ok:
+                run.violation(rule, f, 'label table reset outside the module start',
+                              '%s resets its label table at line %d, not (only) where a module starts: an lref item and the function that '
+                              'defines its label would get different label objects' % (fn, r['l']), line=r['l'])
+    # lref labels come from the table
+    rf = tu.func('MIR_read_with_func')
+    for c in [x for x in rf.walk() if x['k'] == 'CallExpr' and x.get('callee') == 'MIR_new_lref_data']:
+        args = F.call_args(c)
+        labs = [F.src(F.strip(a)) for a in args[2:4]]
+        ok = True
+        for lv in labs:
+            defs = [x for x in rf.walk() if x['k'] == 'BinaryOperator' and x['op'] == '=' and F.src(F.strip(x['c'][0])) == lv]
+            for d in defs:
+                for y in F.walk(d['c'][1]):
+                    if y['k'] == 'CallExpr' and y.get('callee') == 'create_label':
+                        ok = False
+        run.ob(rule, ('lref-labels', c['l']), ok, {'lref labels': labs, 'from the label table': ok})
+        if not ok:
+            run.violation(rule, rf, 'lref label provenance', 'the binary reader creates fresh labels for an lref item instead of taking them '
+                          'from its label table', line=c['l'])
+    cl = [g.name for g in tu.func_list for x in g.walk() if x['k'] == 'CallExpr' and x.get('callee') == 'create_label'
+          and g.name in tu.reachable(['MIR_read_with_func']) and g.name != 'to_lab' and g.name != 'MIR_new_label']
+    ok = not cl
+    run.ob(rule, ('create_label-callers',), ok, {'callers of create_label in the reader': sorted(set(cl))})
+    if not ok:
+        run.violation(rule, tu.funcs[cl[0]], 'create_label outside to_lab', 'create_label is called in the binary reader from %s, outside the '
+                      'label table function to_lab' % sorted(set(cl)), line=tu.funcs[cl[0]].line)
